@@ -48,7 +48,7 @@ impl Prop for C02 {
         true
     }
     fn random_cases(tier: Tier) -> u64 {
-        tier.pick(20_000, 300_000)
+        tier.pick(20_000, 2_500_000)
     }
     fn strategy(tier: Tier) -> BoxedStrategy<Case> {
         let (max_len, max_cells, max_labels) = tier.pick((64, 10, 10), (1024, 60, 60));
